@@ -88,7 +88,17 @@ class PGen:
                 else:
                     wbody = [self.user(), self.bot()] + ([{"k": "set", "var": "x0", "val": d.randint(0, 3, key, s, "wv")}] if d.chance(0.3, key, s, "ws") else []) \
                         + (self.block(depth + 1, (key, s, "wb"), d.chance(0.5, key, s, "wbu")) if depth < 2 and d.chance(0.4, key, s, "wblk") else [])
-                out.append({"k": "while", "var": v, "limit": d.randint(1, 3, key, s, "lim"), "body": wbody})
+                limit = d.randint(1, 3, key, s, "lim")
+                jump = d.weighted([("none", 5), ("break", 2), ("continue", 2)], key, s, "wjump")
+                if jump != "none":
+                    # leave the loop / the iteration early when the counter has a certain value; `continue` skips the rest of the body -
+                    # the counter is moved on first, so the loop still ends
+                    at = d.randint(0, limit, key, s, "wjat")
+                    guard = {"k": "if", "var": v, "op": "==", "c": at, "then": ([{"k": "inc", "var": v}] if jump == "continue" else []) + [{"k": jump}], "else": None}
+                    wbody.insert(d.randint(1, len(wbody), key, s, "wjpos"), guard)
+                    if d.chance(0.5, key, s, "wjtail"):
+                        wbody.append(self.bot())
+                out.append({"k": "while", "var": v, "limit": limit, "body": wbody})
             elif k == "do":
                 name = "sub%d" % len(self.subflows)
                 self.subflows.append(None)
@@ -145,6 +155,10 @@ def render(prog):
                 out.append(p + "  $%s = $%s + 1" % (s["var"], s["var"]))
             elif k == "do":
                 out.append(p + "do %s" % s["name"])
+            elif k in ("break", "continue"):
+                out.append(p + k)
+            elif k == "inc":
+                out.append(p + "$%s = $%s + 1" % (s["var"], s["var"]))
             elif k == "exec":
                 out.append(p + "$%s = execute %s(p=$%s)" % (s["result"], s["action"], s["param"]))
         return out
@@ -179,6 +193,14 @@ class Leave(Exception):
     pass
 
 
+class _Break(Exception):
+    pass
+
+
+class _Continue(Exception):
+    pass
+
+
 def reference_run(prog, intents, init_vars=None):
     """Reference semantics: returns per user intent (decisions, vars at Listen)."""
     subs = {s["name"]: s["body"] for s in prog["subflows"]}
@@ -205,8 +227,19 @@ def reference_run(prog, intents, init_vars=None):
                     yield from run(s["else"])
             elif k == "while":
                 while state["vars"].get(s["var"], 0) < s["limit"]:
-                    yield from run(s["body"])
+                    try:
+                        yield from run(s["body"])
+                    except _Continue:
+                        continue  # back to the condition; the rest of the body (the counter increment at its end too) is skipped
+                    except _Break:
+                        break
                     state["vars"][s["var"]] = state["vars"].get(s["var"], 0) + 1
+            elif k == "break":
+                raise _Break()
+            elif k == "continue":
+                raise _Continue()
+            elif k == "inc":
+                state["vars"][s["var"]] = state["vars"].get(s["var"], 0) + 1
             elif k == "do":
                 yield from run(subs[s["name"]])
             elif k == "exec":
@@ -296,8 +329,19 @@ def _next_expected(prog, intents, init_vars=None):
                     yield from run(s["else"])
             elif k == "while":
                 while vars_.get(s["var"], 0) < s["limit"]:
-                    yield from run(s["body"])
+                    try:
+                        yield from run(s["body"])
+                    except _Continue:
+                        continue
+                    except _Break:
+                        break
                     vars_[s["var"]] = vars_.get(s["var"], 0) + 1
+            elif k == "break":
+                raise _Break()
+            elif k == "continue":
+                raise _Continue()
+            elif k == "inc":
+                vars_[s["var"]] = vars_.get(s["var"], 0) + 1
             elif k == "do":
                 yield from run(subs[s["name"]])
             elif k == "exec":
@@ -348,7 +392,7 @@ class C14(Prop):
         "stub": ["the user (simulated client feeding UserIntent events)", "custom actions act0..actN (deterministic function, scheduler-chosen latency)", "event loop clock (SimLoop)", "uuid / wall clock seams"],
     }
     assumptions = ["the generated subset avoids constructs whose Colang 1.0 semantics is a heuristic (competing flows, wildcards, priorities)", "compared are decisions (bot intents, action starts with evaluated parameter, Listen) and program variables at each Listen, not the grouping of ContextUpdate events"]
-    expected_probes = ["sibling_conversation", "direct_decision_function_calls", "program_with_while", "program_with_subflow", "program_with_action_result_branch", "user_left_flow", "reasked_concurrently", "reasked_after_dynamic_flow"]
+    expected_probes = ["sibling_conversation", "direct_decision_function_calls", "program_with_while", "program_with_break_or_continue", "program_with_subflow", "program_with_action_result_branch", "user_left_flow", "reasked_concurrently", "reasked_after_dynamic_flow"]
     ddmin_paths = [("intents",), ("program", "body"), ("program", "subflows", "*", "body")]
     quick_runs = 240
     thorough_runs = 20000
@@ -383,6 +427,8 @@ class C14(Prop):
             out.probe("program_with_while")
         if "do" in kinds:
             out.probe("program_with_subflow")
+        if kinds & {"break", "continue"}:
+            out.probe("program_with_break_or_continue")
         holder = {}
         ld = Draws(sc.get("lat_seed", 0))
         calls = []
